@@ -85,6 +85,33 @@ def run(tier, replay=None):
     wd = workdir("c02")
     scns = [json.load(open(replay))["replay"]["scenario"]] if replay else gen(tier, rng)
     res, by, calls, tw = inflfam.run_and_judge(v, scns, wd, "c02")
+    # the documented build-time window configurations: streams produced by a build must decode in that build (and be valid streams at all)
+    variants = {}
+    if not replay:
+        for defs in ("IGZIP_HIST_SIZE=8192", "LONGER_HUFFTABLE"):
+            hbv = build_harness("h_igzip", ["h_igzip.c"], extra_defs=defs)
+            dsc = []
+            for i, (cls, n) in enumerate([("text", 4000), ("records", 20000), ("random", 600), ("lowent", 3000)]):
+                inp = igz.corpus(rng, cls, n)
+                for level in range(4):
+                    for wrap in (0, 1, 3):
+                        if (i + level + wrap) % 2 and tier == "quick": continue
+                        dsc.append(igz.scenario(len(dsc), ["deflate_stateless", "deflate"][(level + wrap) % 2], inp, level=level, wrap=wrap, lbuf=3,
+                                                calls=[[n, 2 * n + 600, 0, 1]] if (level + wrap) % 2 == 0 else [[1000, 1 << 17, [0, 1, 2][i % 3], 1]] * (n // 1000 + 1), tail_ai=n, tail_ao=1 << 17, meta={"family": "build:" + defs, "cls": cls}))
+            drecs, dsumm, dby = igz.merge(dsc, igz.run_harness(dsc, wd, "v-defl-" + defs[:6], binary=hbv))
+            dres, _ = igz.judge("trace/TraceDeflate", drecs, wd, "c02vd", shards=8)
+            igz.report(v, dsc, dres, dby, prefix="build %s: deflate:" % defs)
+            isc = []
+            for s_ in dsc:
+                o = [b for c in dby[s_["scn"]]["calls"] for b in c["out"]]
+                if dby[s_["scn"]]["end"].get("state") != "END" and s_["api"] == 0: continue
+                if not o: continue
+                for api, calls, ta, to in (("inflate_stateless", [[len(o), 1 << 17, 0, 0]], len(o), 1 << 17), ("inflate", [], len(o), 1 << 17), ("inflate", [], 61, 257)):
+                    isc.append(igz.scenario(len(isc), api, o, wrap=s_["wrap"], calls=calls, tail_ai=ta, tail_ao=to, cap=20000, mem=len(isc) % 3, meta={"family": "build:" + defs, "plan": "own-stream-level%d" % s_["level"]}))
+            irecs, isumm, iby = igz.merge(isc, igz.run_harness(isc, wd, "v-infl-" + defs[:6], binary=hbv))
+            ires, _ = igz.judge("trace/TraceInflate", igz.group_inflate(irecs), wd, "c02vi", shards=8)
+            igz.report(v, isc, ires, iby, prefix="build %s: inflate:" % defs)
+            variants[defs] = {"deflate_scenarios": len(dsc), "inflate_runs": len(isc)}
     notvalid = [s for s in scns if res[s["scn"]]["ref"] != "Valid"]
     if notvalid and not replay:
         log("note: %d generated streams are not Valid per the spec (generator defect, not a finding): e.g. %s" % (len(notvalid), notvalid[0]["meta"]))
@@ -93,7 +120,7 @@ def run(tier, replay=None):
         r = res[s["scn"]]
         if r["ref"] == "Valid" and ("dynamic" in r["types"]) and (r["maxdist"] >= 16384 or "15" in s["meta"]["plan"] or r["nout"] > 4096):
             plans[(s["meta"]["plan"], s["wrap"])] = 1
-    cov = {"evaluations": len(scns), "distinct_nontrivial": len(plans), "calls": calls, "state_machine_conformance": igz.inflate_conformance(res), "streams": len(set(bytes(s["inp"]) for s in scns)),
+    cov = {"build_variants": variants, "evaluations": len(scns), "distinct_nontrivial": len(plans), "calls": calls, "state_machine_conformance": igz.inflate_conformance(res), "streams": len(set(bytes(s["inp"]) for s in scns)),
            "spec_says_valid": len(scns) - len(notvalid), "kernels": inflfam.KERNEL_CPUS, "tlc_wall_s": round(tw, 1),
            "rule": "streams from the deflate grammar (lib/defgen.py: stored/fixed/dynamic blocks in any order incl. empty ones, complete prefix codes up to 15 bits, single-code distance alphabets, every length/distance symbol edge, overlapping copies, distance 32768, "
                    "compressed sizes on both sides of the 2K/4K multi-symbol thresholds) and zlib-made streams (Z_FIXED/Z_HUFFMAN_ONLY/Z_RLE/default), wrapped for all 7 inflate modes; each replayed one-shot and streaming (1-byte in, 1-byte out, mixed) under the three decode kernels "
